@@ -358,6 +358,36 @@ def gen_cte_formats():
     print("CteFormats: array format and header tables extracted")
 
 
+def gen_entrypoints(exe):
+    """public entry points of ce, cbe, cte and their panic containment (C07, C29)"""
+    eps = run_json(exe, "entrypoints", REPO, "ce", "cbe", "cte")
+    def sl(xs):
+        return "[" + ", ".join(lean_str(x) for x in xs) + "]"
+    lines = ["import CE.Api.EntryPoints",
+             "/- GENERATED by extract/extract.py from ce/*.go, cbe/*.go, cte/*.go — do not edit -/",
+             "namespace CE.Gen", "open CE.Api", "",
+             "def entryPoints : List EP := ["]
+    rows = []
+    for e in eps:
+        nm = e["pkg"] + "." + (e["recv"] + "." if e["recv"] else "") + e["name"]
+        rows.append(f"  {{ name := {lean_str(nm)}, short := {lean_str(e['name'])}, hasRecover := {'true' if e['hasRecover'] else 'false'}, "
+                    f"unguardedIndex := {'true' if e['unguardedIndex'] else 'false'}, callees := {sl(e['callees'] or [])}, "
+                    f"entry := {'true' if e['name'].startswith(('Marshal', 'Unmarshal', 'Decode')) else 'false'} }}")
+    lines.append(",\n".join(rows) + "]")
+    lines += ["", "end CE.Gen", ""]
+    open(os.path.join(GEN, "EntryPoints.lean"), "w").write("\n".join(lines))
+    chk = ["import CE.Gen.EntryPoints",
+           "/- GENERATED obligation: every public marshal / unmarshal / decode entry point of /repo, as extracted just",
+           "   now, contains panics: it installs a deferred recover, or it only calls contained entry points and",
+           "   helpers known not to panic, without indexing a parameter it has not checked. -/",
+           "namespace CE.GenCheckEntry", "open CE.Api", "",
+           "theorem entry_points_contain_panics : ∀ e ∈ CE.Gen.entryPoints, isEntry e = true → contained CE.Gen.entryPoints 4 e = true := by decide",
+           "theorem entry_points_present : requiredEntries.all (fun n => CE.Gen.entryPoints.any (fun e => e.name == n && e.entry)) = true := by decide",
+           "", "end CE.GenCheckEntry", ""]
+    open(os.path.join(GEN, "CheckEntry.lean"), "w").write("\n".join(chk))
+    print(f"EntryPoints: {len(eps)} exported error-returning functions extracted")
+
+
 def snapshot():
     src = open(os.path.join(GEN, "Chars.lean")).read()
     src = src.replace("namespace CE.Gen", "namespace CE.Chars.Model").replace("end CE.Gen", "end CE.Chars.Model")
@@ -394,6 +424,7 @@ def main():
     gen_api(exe)
     gen_session(exe)
     gen_cte_formats()
+    gen_entrypoints(exe)
     gen_check()
     if "--snapshot" in sys.argv:
         snapshot()
